@@ -131,6 +131,17 @@ Fixpoint strip0 (s : string) : string :=
   | _ => s
   end.
 
+(* strings.TrimRight(s, "0") *)
+Fixpoint trim0r (s : string) : string :=
+  match s with
+  | EmptyString => EmptyString
+  | String c r =>
+      match trim0r r with
+      | EmptyString => if Ascii.eqb c "0" then EmptyString else String c EmptyString
+      | r' => String c r'
+      end
+  end.
+
 (* minimal-width decimal rendering of 0 <= n < 10^20 (covers uint64) *)
 Definition dec (n : Z) : string := strip0 (fixw 20 n).
 
